@@ -4,6 +4,7 @@ package main
 
 import (
 	"fmt"
+	"unicode/utf8"
 	"go/constant"
 	"go/types"
 	"math/big"
@@ -655,6 +656,13 @@ func (e *specEnv) callSpec(n *ECall) Val {
 		return VBool{tAnd(tLt("0", r.T), tLe(r.T, ex.heapTop()))}
 	case "validUTF8":
 		s := argv(0).(VSlice)
+		if bs, ok := e.concreteBytes(s); ok {
+			// concrete argument (replay of observed values): the real definition
+			if utf8.Valid(bs) {
+				return VBool{"true"}
+			}
+			return VBool{"false"}
+		}
 		return VBool{app(ex.validUTF8Fn(), e.memOf(s)[0], s.Off, s.Len)}
 	case "det":
 		// det(fn, raw, limit): the meaning of a Detector call
@@ -745,6 +753,24 @@ func (e *specEnv) flattenArg(v Val) []T {
 	}
 	e.fail("cannot pass %T to uninterpreted function", v)
 	return nil
+}
+
+// concreteBytes extracts the bytes of a slice whose length and contents are numerals.
+func (e *specEnv) concreteBytes(s VSlice) ([]byte, bool) {
+	n, ok := isNum(s.Len)
+	if !ok || !n.IsInt64() || n.Int64() < 0 || n.Int64() > 1<<20 {
+		return nil, false
+	}
+	m := e.memOf(s)[0]
+	out := make([]byte, n.Int64())
+	for i := range out {
+		v, ok := isNum(tSel(m, tIdx(s.Off, num(int64(i)))))
+		if !ok || !v.IsInt64() {
+			return nil, false
+		}
+		out[i] = byte(v.Int64())
+	}
+	return out, true
 }
 
 func (ex *Exec) validUTF8Fn() string {
